@@ -1,6 +1,7 @@
 package sym
 
 import (
+	"govc/internal/load"
 	"fmt"
 	"go/constant"
 	"go/types"
@@ -307,6 +308,40 @@ func (x *Exec) localNamed(name string, c *evalCtx) *ssa.Alloc {
 	return nil
 }
 
+// rangeIndexHere finds the hidden index variable of the innermost range loop that contains the block being executed.
+func (x *Exec) rangeIndexHere(fr *frame) *ssa.Alloc {
+	if fr == nil || fr.cur == nil {
+		return nil
+	}
+	var best *load.LoopInfo
+	for _, li := range x.loopsOf(fr) {
+		if li.Header != fr.cur && !li.Body[fr.cur] {
+			continue
+		}
+		if best == nil || len(li.Body) < len(best.Body) {
+			// only range loops have a rangeindex store in their header
+			for _, in := range li.Header.Instrs {
+				if st, ok := in.(*ssa.Store); ok {
+					if a, ok := st.Addr.(*ssa.Alloc); ok && a.Comment == "rangeindex" {
+						best = li
+					}
+				}
+			}
+		}
+	}
+	if best == nil {
+		return nil
+	}
+	for _, in := range best.Header.Instrs {
+		if st, ok := in.(*ssa.Store); ok {
+			if a, ok := st.Addr.(*ssa.Alloc); ok && a.Comment == "rangeindex" {
+				return a
+			}
+		}
+	}
+	return nil
+}
+
 func (x *Exec) evalIdent(name string, c *evalCtx) (typed, error) {
 	if c.paramsCurrent && !c.inOld && c.fr != nil {
 		if _, isParam := x.params[name]; isParam {
@@ -325,7 +360,12 @@ func (x *Exec) evalIdent(name string, c *evalCtx) (typed, error) {
 	if b, ok := c.env[name]; ok {
 		return tv(b.t, b.typ), nil
 	}
-	if name == "iter" && c.fr != nil { // range loop iteration counter = rangeindex + 1 of the innermost live range loop
+	if name == "iter" && c.fr != nil { // range loop iteration counter = rangeindex + 1 of the innermost range loop around here
+		if a := x.rangeIndexHere(c.fr); a != nil {
+			if v, ok := c.st.cells[a]; ok {
+				return tv(smt.Add(v, smt.IntLit(1)), types.Typ[types.Int]), nil
+			}
+		}
 		if a := x.localNamed("rangeindex", c); a != nil {
 			return tv(smt.Add(c.st.cells[a], smt.IntLit(1)), types.Typ[types.Int]), nil
 		}
@@ -358,6 +398,25 @@ func (x *Exec) evalIdent(name string, c *evalCtx) (typed, error) {
 						v := x.ctx.Fresh("dead$"+name, x.sortOf(deref(a.Type())))
 						return tv(v, deref(a.Type())), nil
 					}
+				}
+			}
+		}
+	}
+	// a captured variable of a function literal that is verified on its own
+	if x.fn != nil && c.fr != nil {
+		root := c.fr
+		for root.parent != nil {
+			root = root.parent
+		}
+		for _, fv := range x.fn.FreeVars {
+			if fv.Name() == name {
+				if ref, ok := root.regs[fv]; ok {
+					et := deref(fv.Type())
+					if isAggregate(et) {
+						return tv(ref, types.NewPointer(et)), nil
+					}
+					hn, hs := x.ptrHeap(et)
+					return tv(smt.Select(x.heap(x.curState(c), hn, hs), ref), et), nil
 				}
 			}
 		}
